@@ -186,6 +186,8 @@ def build(case, flt):
         from coba.multiprocessing import CobaMultiprocessor
         return CobaMultiprocessor(flt, case["n"], case["m"])
     from coba.pipes.multiprocessing import Multiprocessor
+    if case.get("read_wait"):
+        return Multiprocessor(flt, case["n"], case["m"], read_wait=True)      # phase 4: processes wait until the caller has read their key
     return Multiprocessor(flt, case["n"], case["m"])
 
 
@@ -215,6 +217,12 @@ def run_scheduled(case, prefix=None, mp=None, chooser=None):
             sched.np_probe = lambda: getattr(mp, "_n_procs", None)
         import contextlib, io
         gen = mp.filter(make_items(case))
+        if not case.get("wrap") and getattr(mp, "_n_procs", None) is None:
+            # the per-call state lives on a `CallState` object local to the generator (fix C08-per-call-state): read `_n_procs` from there
+            def _np(g=gen):
+                fr = getattr(g, "gi_frame", None)
+                return getattr(fr.f_locals.get("call"), "_n_procs", None) if fr is not None else None
+            sched.np_probe = _np
         with (contextlib.redirect_stdout(io.StringIO()) if case.get("kill") is not None else contextlib.nullcontext()):
             try:
                 outs, outcome = consume(gen, case, on_abandon=lambda: sched.act("cAbandon"))
@@ -527,6 +535,82 @@ def correspond(case, run, driver):
     return fails, ans
 
 
+def correspond_readwait(case, run, driver):
+    """(A) for `read_wait=True` runs: the logged trace (with `wKey` / `cKey` / `drainKey`) must be a run of the layer
+    `enabledR`/`stepR` (Model/C08.lean, phase 4) and end in the model's outcome; (C): `muR` decreases, the bound of
+    `terminates_readwait` holds, the base out-queue stays the key-free part of the real one, and (theorem `readwait_refines`)
+    the base theorems' conclusions hold on the final state"""
+    fails = []
+    oc = run["outcome"]
+    if run["trace"] is None or not case["items"] or case.get("abandon") == 0 or inprocess(case):
+        return fails, None
+    if run["escaped"]:
+        fails.append(F("A", "an exception escaped a background thread of the real code: %s" % run["escaped"][0][:300], "A:escaped-exception"))
+    trace = run["trace"]
+    ans = driver.ask({"op": "traceR", "cfg": model_cfg(case), "trace": trace, "read_wait": True})
+    if ans["fail"] is not None:
+        at = ans["fail"]["at"]
+        a = trace[at] if at < len(trace) else None
+        fails.append(F("A", "read_wait layer: trace inclusion fails at step %d: action %s is %s in the model (enabledR/stepR); model state %s key_pending=%s key_wait=%s; trace so far …%s"
+                       % (at, json.dumps(a), ans["fail"]["why"], json.dumps(ans["state"]), ans["key_pending"], ans["key_wait"], json.dumps(trace[max(0, at - 6):at])),
+                       "A:traceR:%s:%s" % (ans["fail"]["why"], a["a"] if a else "?")))
+        return fails, ans
+    if oc["kind"] == "hang":
+        return fails, ans
+    mo = ans["outcome"]
+    got = [enc(o) for o in run["outs"]]
+    if not ans["done"]:
+        fails.append(F("A", "read_wait layer: the call finished but the model is not in its final phase: %s" % json.dumps(ans["state"]), "A:traceR:not-done"))
+    elif mo["kind"] != oc["kind"] or mo["outs"] != got or (mo["kind"] == "raised" and not err_matches(case, mo["err"], oc)):
+        fails.append(F("A", "read_wait layer: outcome differs: implementation %s %s, model %s" % (got, oc, json.dumps(mo)), "A:traceR:outcome"))
+    if not ans["mu_decreasing"]:
+        fails.append(F("C", "read_wait layer: muR did not decrease on some step of an accepted trace / the out-queues went out of sync / an incarnation exceeded m", "C:traceR:variant"))
+    if not ans["within_bound"]:
+        fails.append(F("C", "read_wait layer: the accepted trace is longer than 6*mu(init) (theorem terminates_readwait)", "C:traceR:bound"))
+    if not ans["spec_holds"]:
+        fails.append(F("C", "read_wait layer: model final state violates the spec although the theorems' hypotheses hold: %s" % json.dumps(ans["state"]), "C:traceR:spec"))
+    return fails, ans
+
+
+def correspond_faults(case, run, driver):
+    """(A) for runs in which a worker process was killed: the logged trace (`wKilled` = model action `wCrash`) must be a run of
+    the fault extension `enabledF`/`stepF` (Model/C08.lean, phase 4) and end in the model's outcome; (C): `muF` decreases on every
+    step, the run is within the bound of theorem `terminates_faults`, no incarnation exceeds m (`max_tasks_respected_faults`)"""
+    fails = []
+    oc = run["outcome"]
+    if run["trace"] is None or not case["items"] or case.get("abandon") == 0:
+        return fails, None
+    if run["escaped"]:
+        fails.append(F("A", "an exception escaped a background thread of the real code: %s" % run["escaped"][0][:300], "A:escaped-exception"))
+    trace = [dict(a, a="wCrash") if a["a"] == "wKilled" else a for a in run["trace"]]
+    nf = sum(1 for a in trace if a["a"] == "wCrash")
+    ans = driver.ask({"op": "traceF", "cfg": model_cfg(case), "trace": trace, "faults": nf})
+    if ans["fail"] is not None:
+        at = ans["fail"]["at"]
+        a = trace[at] if at < len(trace) else None
+        fails.append(F("A", "fault extension: trace inclusion fails at step %d: action %s is %s in the model (enabledF/stepF); model state %s main_err=%s skipped=%s; trace so far …%s"
+                       % (at, json.dumps(a), ans["fail"]["why"], json.dumps(ans["state"]), ans["main_err"], ans["skipped"], json.dumps(trace[max(0, at - 6):at])),
+                       "A:traceF:%s:%s" % (ans["fail"]["why"], a["a"] if a else "?")))
+        return fails, ans
+    if oc["kind"] == "hang":
+        return fails, ans
+    mo = ans["outcome"]
+    got = [enc(o) for o in run["outs"]]
+    if not ans["done"]:
+        fails.append(F("A", "fault extension: the call finished but the model is not in its final phase: %s" % json.dumps(ans["state"]), "A:traceF:not-done"))
+    elif mo["kind"] != oc["kind"] or mo["outs"] != got or (mo["kind"] == "raised" and not err_matches(case, mo["err"], oc)):
+        fails.append(F("A", "fault extension: outcome differs: implementation %s %s, model %s" % (got, oc, json.dumps(mo)), "A:traceF:outcome"))
+    elif nf and ans["budget_left"] != 0:
+        fails.append(F("C", "fault extension: %d crash(es) replayed but the budget left is %s" % (nf, ans["budget_left"]), "C:traceF:budget"))
+    if not ans["mu_decreasing"]:
+        fails.append(F("C", "fault extension: muF did not decrease on some step of an accepted trace, or an incarnation exceeded maxtasksperchild in the model", "C:traceF:variant"))
+    if not ans["within_bound"]:
+        fails.append(F("C", "fault extension: the accepted trace is longer than mu(init) + 3*faults (theorem terminates_faults)", "C:traceF:bound"))
+    if not ans["spec_holds"]:
+        fails.append(F("C", "fault extension: model final state delivers a duplicate/foreign output or raises a foreign error: %s" % json.dumps(ans["state"]), "C:traceF:spec"))
+    return fails, ans
+
+
 def trace_tags(case, run):
     """which rare orders this run visited"""
     tags = []
@@ -599,7 +683,9 @@ class C08(Property):
             "seed + role/lineage weights + stickiness or an explicit choice prefix (DFS)); run on the REAL Multiprocessor.filter under the baton scheduler (or with real "
             "spawned processes), every call's trace replayed through the Lean enabled/step (extended by the put-timeout action) from startCall/init, outcome compared "
             "incl. the wrapper's translation; DFS cases with `por` enumerate all schedules up to commutation of independent steps (sleep sets over Coba.C08.indep, "
-            "table cross-checked with the driver); a few cases kill a worker process mid-item; non-trivial = at least 2 items and a trace of at least 12 steps (or a real-process run or a history); distinct by canonical JSON")
+            "table cross-checked with the driver — phase 4: over Coba.C08.indep2, theorem step_comm2); killed-worker cases (family gen_fault: the process handling item i dies, "
+            "every (n,m) shape, crash before/after the caller woke up) are replayed through the fault extension enabledF/stepF (`wCrash`), read_wait=True cases (family "
+            "gen_readwait, scheduled + real processes) through the key layer enabledR/stepR (`wKey`/`cKey`/`drainKey`); non-trivial = at least 2 items and a trace of at least 12 steps (or a real-process run or a history); distinct by canonical JSON")
     trusted_base = [
         "thread-based fakes for spawn_context.Queue/Event, MyProcessLine and ThreadLine (harness/props/c08_sched.py): FIFO queues, bounded put blocks, put/get with a "
         "finite timeout give up when the scheduler says so, join blocks until the thread/process body has ended, a spawned process works on a pickled private copy of "
@@ -608,12 +694,20 @@ class C08(Property):
         "real OS processes, pipes, multiprocessing.Queue feeder threads and pickling are exercised only by the real-process cases (outcome compared)",
         "the sleep-set enumeration treats a scheduling segment as a set of model actions and relies on theorem step_comm for their commutation; segments "
         "without a model action are treated as dependent on everything",
-        "NOT in the transition system: exitcode != 0 / _main_err (crashed interpreter, missing __main__ guard), read_wait=True (wait keys), cloudpickle; "
-        "the wrapper's logger/cacher/store marshalling is C01's",
+        "NOT in the transition system: cloudpickle; the wrapper's logger/cacher/store marshalling is C01's.  Phase 4: exitcode != 0 / _main_err and read_wait=True ARE "
+        "Lean transitions now (FState/ActionF, RState/ActionR); for read_wait the scheduled fake process replicates the three worker-side lines of MyProcessLine.start/run "
+        "(create event + UniqueKey, write the key after the line ended, wait) — the caller side (`isinstance(i, UniqueKey)` … `.set()`) is the real code; the real "
+        "MyProcessLine.run/start are exercised by the real-process read_wait cases only",
+        "translator (pre_build): Generated/C08Callback.lean is extracted with Python's ast from the current coba/pipes/multiprocessing.py (queue capacity factor, restart "
+        "test, `_n_procs -= 1`, out-pill test, number of in-pills, `_main_err` test); if the source is reshaped beyond recognition defaults are written with extracted=false",
     ]
     assumptions = ["n_processes >= 1", "the wrapped filter's outputs and errors are picklable",
                    "a worker process that is KILLED is outside the theorems (fault, not `the filter raises`): open finding C08-F5 records what the code does then"]
-    partial_theorems = {}
+    partial_theorems = {
+        "exactly_once_faults_partial": "with worker crashes (exit code != 0) the code loses the item in hand and returns normally (finding C08-F5): proved for the "
+                                       "fault budget 0; witness exactly_once_faults_counterexample (replayed on the real code: corpus kill cases)",
+        "error_surfaces_faults_partial": "same forced hypothesis (no crash): a crashed process' pending error is lost with it",
+    }
 
     # ---- generators
     def gen_items(self, rng, n, m, style):
@@ -730,6 +824,171 @@ class C08(Property):
             case["sched"] = {"seed": rng.below(2 ** 32), "policy": self.gen_policy(rng, n)}
         return case
 
+    # ---- translator tie (phase 4): the callback's decisions, extracted from the CURRENT source with `ast`
+    def pre_build(self):
+        """regenerates lean/CobaVerif/Generated/C08Callback.lean from coba/pipes/multiprocessing.py: the in_queue capacity factor,
+        the restart condition and the out-pill condition of `filter_finished_or_failed`, the number of pills the loader callback
+        writes and the caller's `_main_err` test.  Props/C08.lean proves that they equal what the model's `step` does
+        (`generated_*` theorems), so an edit of these expressions breaks a proof obligation."""
+        import ast
+        from core import lean as _lean
+        path = os.path.join(_lean.LEAN_DIR, "CobaVerif", "Generated", "C08Callback.lean")
+        src_path = os.path.join(os.environ.get("COBA_REPO", "/repo"), "coba", "pipes", "multiprocessing.py")
+        got, notes = {}, []
+
+        def attr(e):
+            return e.attr if isinstance(e, ast.Attribute) else (e.id if isinstance(e, ast.Name) else None)
+
+        def cond(e):
+            """boolean expression over the atoms poisoned / exceptions / exitcode / _main_err -> Lean Bool term"""
+            if isinstance(e, ast.BoolOp):
+                parts = [cond(v) for v in e.values]
+                return "(" + (" && " if isinstance(e.op, ast.And) else " || ").join(parts) + ")"
+            if isinstance(e, ast.UnaryOp) and isinstance(e.op, ast.Not):
+                return "(!" + cond(e.operand) + ")"
+            if isinstance(e, ast.Compare) and len(e.ops) == 1 and isinstance(e.comparators[0], ast.Constant) and isinstance(e.comparators[0].value, int):
+                a, k, op = attr(e.left), e.comparators[0].value, type(e.ops[0]).__name__
+                if a == "exitcode" and k == 0 and op in ("Eq", "NotEq"):
+                    return "exit0" if op == "Eq" else "(!exit0)"
+                if a == "_n_procs" and k >= 0 and op in ("Eq", "LtE", "Lt", "NotEq", "Gt", "GtE"):
+                    return {"Eq": "(nprocs == %d)", "LtE": "(decide (nprocs ≤ %d))", "Lt": "(decide (nprocs < %d))", "NotEq": "(nprocs != %d)",
+                            "Gt": "(decide (nprocs > %d))", "GtE": "(decide (nprocs ≥ %d))"}[op] % k
+                raise ValueError("comparison not understood: %s" % ast.dump(e)[:120])
+            a = attr(e)
+            if a == "poisoned":
+                return "poisoned"
+            if a == "_exceptions":
+                return "(!noExc)"
+            if a == "_main_err":
+                return "mainErr"
+            raise ValueError("atom not understood: %s" % ast.dump(e)[:120])
+
+        def amount(e):
+            """`call._n_procs`, `call._n_procs ± k` or `self._max_processes` -> Lean Nat term over nprocs / n"""
+            if isinstance(e, ast.BinOp) and isinstance(e.right, ast.Constant) and isinstance(e.right.value, int) and isinstance(e.op, (ast.Add, ast.Sub)):
+                return "(%s %s %d)" % (amount(e.left), "+" if isinstance(e.op, ast.Add) else "-", e.right.value)
+            a = attr(e)
+            if a == "_n_procs":
+                return "nprocs"
+            if a == "_max_processes":
+                return "n"
+            raise ValueError("amount not understood: %s" % ast.dump(e)[:120])
+
+        try:
+            tree = ast.parse(open(src_path, encoding="utf-8").read())
+            flt = [f for c in ast.walk(tree) if isinstance(c, ast.ClassDef) and c.name == "Multiprocessor"
+                   for f in c.body if isinstance(f, ast.FunctionDef) and f.name == "filter"][0]
+            for node in ast.walk(flt):
+                if isinstance(node, ast.Call) and attr(node.func) == "Queue":
+                    for kw in node.keywords:
+                        if kw.arg == "maxsize" and isinstance(kw.value, ast.BinOp) and isinstance(kw.value.op, ast.Mult):
+                            l, r = kw.value.left, kw.value.right
+                            if isinstance(r, ast.Constant) and attr(l) == "_max_processes":
+                                got["cap"] = int(r.value)
+                            elif isinstance(l, ast.Constant) and attr(r) == "_max_processes":
+                                got["cap"] = int(l.value)
+                if isinstance(node, ast.FunctionDef) and node.name == "filter_finished_or_failed":
+                    for st in ast.walk(node):
+                        if isinstance(st, ast.If) and any(isinstance(x, ast.Call) and attr(x.func) == "start" for b in st.body for x in ast.walk(b)):
+                            got["restart"] = cond(st.test)
+                            for st2 in st.orelse:
+                                for x in ast.walk(st2):
+                                    if isinstance(x, ast.If) and any(isinstance(y, ast.Call) and attr(y.func) == "write" for b in x.body for y in ast.walk(b)):
+                                        got["pill"] = cond(x.test)
+                                    if isinstance(x, ast.AugAssign) and attr(x.target) == "_n_procs" and isinstance(x.value, ast.Constant):
+                                        got["dec"] = ("nprocs - %d" if isinstance(x.op, ast.Sub) else "nprocs + %d") % int(x.value.value)
+                if isinstance(node, ast.FunctionDef) and node.name == "loader_finished_or_failed":
+                    for x in ast.walk(node):
+                        if isinstance(x, ast.BinOp) and isinstance(x.op, ast.Mult) and isinstance(x.left, ast.List) and len(x.left.elts) == 1:
+                            got["pills"] = amount(x.right)
+                if isinstance(node, ast.If) and attr(node.test.operand if isinstance(node.test, ast.UnaryOp) else node.test) == "_main_err" \
+                        and any(isinstance(x, (ast.Yield, ast.YieldFrom)) for b in node.body for x in ast.walk(b)):
+                    got["consumes"] = cond(node.test)
+                if isinstance(node, ast.Assign) and len(node.targets) == 1 and attr(node.targets[0]) == "_n_procs" and isinstance(node.targets[0], ast.Attribute):
+                    got.setdefault("init", amount(node.value))
+        except Exception as e:      # noqa
+            notes.append("C08 translator: extraction failed (%s: %s)" % (type(e).__name__, str(e)[:200]))
+        keys = ("cap", "restart", "pill", "dec", "pills", "consumes", "init")
+        ok = all(k in got for k in keys)
+        if not ok:
+            notes.append("C08 translator: not found in the source: %s — defaults (= the model) written, `extracted = false`" % [k for k in keys if k not in got])
+            got = {"cap": 2, "restart": "((!poisoned) && (!(!noExc)) && exit0)", "pill": "(nprocs == 0)", "dec": "nprocs - 1", "pills": "nprocs",
+                   "consumes": "(!mainErr)", "init": "n"}
+        body = ("-- GENERATED by harness/props/c08.py (pre_build) from coba/pipes/multiprocessing.py on every run; do not edit.\n"
+                "namespace Coba.Generated.C08\n"
+                "/-- `spawn_context.Queue(maxsize=self._max_processes*K)` -/\n"
+                "def capFactor : Nat := %d\n"
+                "/-- `call._n_procs = …` at the start of the call -/\n"
+                "def initProcs (n : Nat) : Nat := %s\n"
+                "/-- the test guarding `MyProcessLine(worker.pipeline, …).start()` in `filter_finished_or_failed` (noExc = `call._exceptions` is empty) -/\n"
+                "def restartCond (poisoned noExc exit0 : Bool) : Bool := %s\n"
+                "/-- otherwise: `call._n_procs -= 1` … -/\n"
+                "def afterExit (nprocs : Nat) : Nat := %s\n"
+                "/-- … and the test guarding `out_put.write([OutPoison()])`, on the decremented counter -/\n"
+                "def pillCond (nprocs : Nat) : Bool := %s\n"
+                "/-- `[call._poison] * …` written by `loader_finished_or_failed` -/\n"
+                "def pillsWritten (nprocs : Nat) : Nat := %s\n"
+                "/-- the test guarding the consuming loop after `event.wait()` -/\n"
+                "def consumes (mainErr : Bool) : Bool := %s\n"
+                "def extracted : Bool := %s\n"
+                "end Coba.Generated.C08\n" % (got["cap"], got["init"], got["restart"], got["dec"], got["pill"], got["pills"], got["consumes"], "true" if ok else "false"))
+        old = open(path, encoding="utf-8").read() if os.path.exists(path) else None
+        if old != body:
+            os.makedirs(os.path.dirname(path), exist_ok=True)
+            with open(path, "w", encoding="utf-8") as f:
+                f.write(body)
+        notes.append("C08 translator: cap=%s restart=%s pill=%s dec=%s pills=%s consumes=%s init=%s extracted=%s"
+                     % (got["cap"], got["restart"], got["pill"], got["dec"], got["pills"], got["consumes"], got["init"], ok))
+        return notes
+
+    def gen_fault(self, rng):
+        """phase 4: a worker process is killed while it handles an item (scheduled runs; replayed through the fault extension):
+        every (n, m) shape, early items (so that the crash can precede the caller's wake-up) and late ones, with / without a raising item"""
+        n = rng.choice([1, 1, 2, 2, 3])
+        m = rng.choice([0, 0, 1, 1, 2, 3])
+        if n == 1 and m == 0:
+            m = rng.choice([1, 2])           # the in-process path has no worker process
+        cnt = rng.randint(1, 8)
+        items = [{"outs": [i] if rng.chance(0.7) else [i, i + 10], "err": None, "gen": True} for i in range(cnt)]
+        for it in items:
+            if not rng.chance(0.75):
+                it["gen"] = False
+                it["outs"] = it["outs"][:1]
+        if rng.chance(0.25):
+            i = rng.below(cnt)
+            items[i]["err"] = rng.choice(list(PLAIN_ERRS[:5]))
+            if not items[i]["gen"]:
+                items[i]["outs"] = []
+        case = {"mode": "sched", "n": n, "m": m, "items": items, "abandon": None,
+                "kill": 0 if rng.chance(0.4) else rng.below(cnt)}
+        if rng.chance(0.15):
+            case["abandon"] = rng.randint(1, 2)
+        if rng.chance(0.3):
+            case["iter"] = True
+        pol = self.gen_policy(rng, n)
+        case["sched"] = {"seed": rng.below(2 ** 32), "policy": pol}
+        return case
+
+    def gen_readwait(self, rng, mode="sched"):
+        """phase 4: `Multiprocessor(f, n, m, read_wait=True)`: a process exits only after the caller has read its key"""
+        c = self.gen_case(rng, "quick", mode if mode == "real" else None)
+        for k in ("wrap", "kill", "head", "buffer"):
+            c.pop(k, None)
+        for it in c["items"]:
+            it.pop("unpick", None)
+        if c["n"] == 1 and c["m"] == 0:
+            c["m"] = rng.choice([1, 2, 3])
+        if mode == "real":
+            c["n"] = min(c["n"], 3)
+            c["items"] = c["items"][:6]
+            for it in c["items"]:
+                it["outs"] = it["outs"][:2] if it["gen"] else it["outs"]
+            if c["abandon"] is not None:
+                c["abandon"] = min(c["abandon"], max(1, len(expected_outs(c))))
+            c.pop("sched", None)
+        c["read_wait"] = True
+        return c
+
     def gen_history(self, rng, mode="sched"):
         """2-3 consecutive filter() calls on the same Multiprocessor object: raising / fine / abandoned in random order"""
         n = rng.choice([1, 1, 2, 2, 3])
@@ -764,6 +1023,10 @@ class C08(Property):
             return self.gen_history(rng, "real") if k < 3 else self.gen_long(rng, "real") if k < 5 else self.gen_real(rng)
         if r >= 850:
             return self.gen_history(rng) if r >= 925 else self.gen_long(rng)
+        if r >= 800:
+            return self.gen_fault(rng)
+        if r >= 740:
+            return self.gen_readwait(rng, "real" if (r == 740 and tier == "quick") else "sched")
         if r < (13 if tier == "quick" else 20):
             return self.gen_dfs(rng, tier)
         if r < 40:
@@ -841,6 +1104,23 @@ class C08(Property):
         for n, m, cnt in ((1, 0, 3), (1, 1, 1), (1, 1, 3), (2, 0, 1), (4, 0, 2), (2, 2, 4), (2, 2, 5), (3, 1, 3), (2, 3, 6), (4, 3, 10), (2, 0, 0), (1, 2, 2)):
             for pol in ("uniform", "workers-first", "callbacks-late", "loader-fast", "caller-slow"):
                 cs.append({"mode": "sched", "n": n, "m": m, "items": [one(i) for i in range(cnt)], "abandon": None, "sched": P(pol)})
+        # phase 4: read_wait=True (keys in the out-queue; the worker side of it only runs with real processes) and killed workers
+        for n, m, cnt in ((2, 0, 4), (1, 2, 4), (2, 1, 3), (3, 2, 7)):
+            for pol in ("uniform", "callbacks-eager", "caller-slow"):
+                cs.append({"mode": "sched", "n": n, "m": m, "items": [one(i) for i in range(cnt)], "abandon": None, "read_wait": True, "sched": P(pol)})
+            cs.append({"mode": "sched", "n": n, "m": m, "items": [{"outs": [i], "err": ("ValueError" if i == 1 else None), "gen": True} for i in range(cnt)],
+                       "abandon": None, "read_wait": True, "sched": P("uniform")})
+            cs.append({"mode": "sched", "n": n, "m": m, "items": [one(i) for i in range(cnt)], "abandon": 2, "read_wait": True, "sched": P("workers-first")})
+        cs.append({"mode": "real", "n": 2, "m": 0, "items": [one(i) for i in range(4)], "abandon": None, "read_wait": True})
+        cs.append({"mode": "real", "n": 2, "m": 1, "items": [{"outs": [i], "err": ("ValueError" if i == 2 else None), "gen": True} for i in range(4)], "abandon": None, "read_wait": True})
+        for n, m, k in ((2, 1, 0), (1, 1, 0), (3, 0, 2), (2, 2, 3), (1, 3, 1)):
+            for pol in ("uniform", "callbacks-eager", "caller-slow", "workers-first"):
+                cs.append({"mode": "sched", "n": n, "m": m, "items": [one(i) for i in range(5)], "abandon": None, "kill": k, "sched": P(pol)})
+        # the closed Lean witnesses exactly_once_faults_counterexample (n=2, m=0, items -> [1], [2], the process holding the first item dies: `ok [2]`)
+        # and crash_before_event_skips_counterexample (n=2, m=1, one item, the crash's callback runs before the caller wakes up: `ok []`), on the real code
+        cs.append({"mode": "sched", "n": 2, "m": 0, "items": [one(1), one(2)], "abandon": None, "kill": 0, "sched": P("uniform")})
+        for pol in ("caller-slow", "callbacks-eager"):
+            cs.append({"mode": "sched", "n": 2, "m": 1, "items": [one(1)], "abandon": None, "kill": 0, "sched": P(pol)})
         # errors: first / last / every item; error while the loader is blocked on a full in_queue
         for n, m in ((1, 1), (2, 0), (2, 1), (3, 2)):
             for bad in ([0], [5], [0, 1, 2, 3, 4, 5], [2, 3]):
@@ -940,6 +1220,10 @@ class C08(Property):
         # n=2, m=1 with two items: one wall-limited case each (the restarts multiply the classes: not complete in the time allowed)
         big = self.por_roots({"mode": "dfs", "por": True, "n": 2, "m": 0, "items": [one(0), one(1)], "abandon": None, "budget": 60000, "wall": 200}, want=48)
         big += [{"mode": "dfs", "por": True, "n": n, "m": m, "items": items, "abandon": None, "budget": 60000, "wall": 200} for n, m, items in por[8:]]
+        # phase 4: with the larger independence table (indep2: wPut–cGet, loadPut–wGet; theorem step_comm2) n=2, m=1 with two items is COMPLETE
+        # (52 122 schedule classes unsplit); split into subtrees like the m=0 case, fine/fine and raising/fine
+        for items in ([one(0), one(1)], [bad, one(1)]):
+            big += self.por_roots({"mode": "dfs", "por": True, "n": 2, "m": 1, "items": items, "abandon": None, "budget": 200000, "wall": 400}, want=64)
         return big + small + plain
 
     # ---- evaluation
@@ -960,9 +1244,20 @@ class C08(Property):
     def verdict(self, case, run, driver, mode):
         fails = judge(case, run)
         model = None
-        if driver is not None and not fails and mode != "real" and case.get("kill") is None:
+        ftags = []
+        if driver is not None and not fails and mode != "real" and case.get("kill") is None and case.get("read_wait") and not inprocess(case) and case["items"] and case.get("abandon") != 0:
+            afails, model = correspond_readwait(case, run, driver)
+            fails += afails
+        elif driver is not None and not fails and mode != "real" and case.get("kill") is None:
             afails, model = correspond(case, run, driver)
             fails += afails
+        elif (driver is not None and mode != "real" and case.get("kill") is not None and not inprocess(case)
+              and all(f["sig"] == "worker-killed-item-lost" for f in fails)):
+            # phase 4: killed-worker runs are replayed through the fault extension of the model (the recorded finding C08-F5 is what the model predicts)
+            afails, model = correspond_faults(case, run, driver)
+            fails += afails
+            if model is not None and model.get("fail") is None:
+                ftags = ["fault:replayed"] + (["fault:caller-skipped"] if model.get("skipped") else []) + (["fault:lost-outputs"] if model.get("lost_outs") else ["fault:nothing-lost"])
         rs = raising(case)
         ni = len(case["items"])
         tags = ["mode:" + mode, "n:%d" % case["n"], "m:%d" % case["m"], "items:%s" % (ni if ni <= 10 else "11-25" if ni <= 25 else "26-50"),
@@ -979,8 +1274,20 @@ class C08(Property):
             tags.append("shape:multiple-of-m")
         if run.get("leaked") is not None:
             tags.append("leaked-processes:%s:%s" % (run["outcome"]["kind"], "0" if run["leaked"] == 0 else "1+"))
+        if case.get("read_wait"):
+            names_ = [a["a"] for a in (run.get("trace") or [])]
+            tags.append("read_wait:%s" % mode)
+            if "wKey" in names_:
+                tags.append("read_wait:keys:%s" % ("1" if names_.count("wKey") == 1 else "2-3" if names_.count("wKey") <= 3 else "4+"))
+            if "drainKey" in names_:
+                tags.append("read_wait:key-drained")
+            if "wKey" in names_ and names_.count("wKey") > names_.count("cKey") + names_.count("drainKey"):
+                tags.append("read_wait:process-left-waiting")
         if case.get("kill") is not None:
             tags.append("fault:worker-killed")
+            tags += ftags
+            if any(a["a"] == "wKilled" for a in (run.get("trace") or [])):
+                tags.append("fault:killed:m=%s" % ("0" if case["m"] == 0 else "1" if case["m"] == 1 else "2+"))
         if case.get("head") and case["items"]:
             tags.append("head:%s:%s" % (case["head"], "wrap" if case.get("wrap") else "plain"))
         if case.get("buffer"):
@@ -1127,9 +1434,9 @@ class C08(Property):
         if driver is not None and pairs and not agg["fails"]:
             strip = lambda a: {k: v for k, v in a.items() if k in ("a", "w")}
             ans = driver.ask({"op": "indep", "cfg": model_cfg(base), "pairs": [[strip(a), strip(b)] for a, b, _ in pairs]})
-            bad = [(a["a"], b["a"]) for (a, b, r), m_ in zip(pairs, ans["indep"]) if bool(r) != bool(m_)]
+            bad = [(a["a"], b["a"]) for (a, b, r), m_ in zip(pairs, ans["indep2" if S.USE_INDEP2 else "indep"]) if bool(r) != bool(m_)]
             if bad:
-                agg["fails"].append(F("A", "the harness' independence table differs from Coba.C08.indep on %s" % bad[:5], "A:indep-table"))
+                agg["fails"].append(F("A", "the harness' independence table differs from Coba.C08.indep2 on %s" % bad[:5], "A:indep-table"))
         agg["tags"] = [t for t in agg["tags"] if not t.startswith("mode:")] + [
             "mode:por", "por:runs:%s" % ("<100" if runs < 100 else "<1000" if runs < 1000 else "<10000" if runs < 10000 else "10000+")] + (
             ["por:complete"] if complete else ["por:stopped-at-failure"] if agg["fails"] else ["por:budget-exhausted"])
